@@ -3,9 +3,14 @@
    the C11 manager model, with HKDF transcribed from RFC 5869 over an HMAC
    oracle `hmac` (Section variable; the only law used is that its output has
    the hash's length) and `edpub` = Ed25519 public key of a seed.
-   Only statements + `exact`; proofs live in proofs/DeriveProofs.v. *)
+   Only statements + `exact`; proofs live in proofs/DeriveProofs.v, DeriveProofs2.v.
+   Strengthening round: Derive.hkdf is proved to be THE RFC 5869 function of model/Hkdf.v (the one
+   C15 is about) when the oracle is RFC 2104 HMAC, and to be what the x/crypto reader as coded
+   (model/HkdfCode.v) delivers to the key deriver's io.ReadFull; salt / PRF-key separation are
+   reductions of derive_key to an exhibited truncated-HMAC collision; the literal PRF-key
+   separation is refuted (nil salt = HashLen zeros; zero-padded salts). *)
 From Coq Require Import List NArith Bool Arith Lia.
-From Tink Require Import Bytes Manager ManagerProofs Derive DeriveProofs.
+From Tink Require Import Bytes Hmac Hkdf HmacCode HkdfCode Manager ManagerProofs Derive DeriveProofs DeriveProofs2.
 Import ListNotations.
 Open Scope N_scope.
 
@@ -69,10 +74,107 @@ Theorem C17_salt_is_the_hkdf_info :
 Proof. exact hkdf_first_block. Qed.
 Print Assumptions C17_salt_is_the_hkdf_info.
 
-Theorem C17_different_salts_different_hmac_messages :
-  forall salt salt' : bytes, salt ++ [1] = salt' ++ [1] -> salt = salt'.
-Proof. exact info_message_injective. Qed.
-Print Assumptions C17_different_salts_different_hmac_messages.
+(* ONE HKDF.  With the HMAC oracle instantiated by RFC 2104 HMAC over the hash functions
+   (std_hmac Hash: the obvious instantiation, Derive.hash -> Hmac.hash_alg by name), the HKDF of
+   this model is the RFC 5869 function Hkdf.hkdf of model/Hkdf.v -- the function C15 ties to
+   RFC 5869 and to the code -- including the empty-salt rule and the 255-block limit. *)
+Theorem C17_one_hkdf :
+  forall (Hash : hash_alg -> bytes -> bytes) h ikm salt info len,
+    Derive.hkdf (std_hmac Hash) h ikm salt info len
+    = Hkdf.hkdf (Hash (alg_of h)) (block_size (alg_of h)) (digest_size (alg_of h)) salt ikm info len.
+Proof. exact derive_hkdf_is_hkdf. Qed.
+Print Assumptions C17_one_hkdf.
+
+(* ... and it is what the CODE's reader hands to a key deriver: streamingprf.Compute(salt) =
+   hkdf.New(h, key, prf salt, salt) as coded (x/crypto reader over crypto/hmac as coded, any
+   streaming hash computing Hash), then io.ReadFull of n bytes; a nil and an empty PRF salt alike *)
+Theorem C17_derive_bytes_as_coded_is_hkdf :
+  forall (Hash : hash_alg -> bytes -> bytes), (forall a x, length (Hash a x) = digest_size a) ->
+  forall (S : Type) (h_init : S) (h_write : S -> bytes -> S) (h_sum : S -> bytes) (marshalable : bool)
+         (h : Derive.hash),
+    (forall chunks, h_sum (fold_left h_write chunks h_init) = Hash (alg_of h) (concat chunks)) ->
+    forall key prfsalt salt n,
+      tink_derive_bytes_code S h_init h_write h_sum (block_size (alg_of h)) marshalable
+        (digest_size (alg_of h)) key
+        (match prfsalt with [] => None | _ => Some prfsalt end) salt n
+      = Derive.hkdf (std_hmac Hash) h key prfsalt salt n
+      /\
+      tink_derive_bytes_code S h_init h_write h_sum (block_size (alg_of h)) marshalable
+        (digest_size (alg_of h)) key (Some prfsalt) salt n
+      = Derive.hkdf (std_hmac Hash) h key prfsalt salt n.
+Proof. exact derive_bytes_code_is_derive_hkdf. Qed.
+Print Assumptions C17_derive_bytes_as_coded_is_hkdf.
+
+(* SALT SEPARATION as a reduction, about derive_key: two derivations from one deriver key with
+   different caller salts that yield the same key material of positive length exhibit a
+   collision of HMAC truncated to n = min(key length, HashLen) > 0 bytes, under the key PRK,
+   on the two different messages salt || 0x01 and salt' || 0x01. *)
+Theorem C17_salt_separation_reduction :
+  forall hmac edpub, (forall h k m, length (hmac h k m) = hash_len h) ->
+  forall k id id' salt salt' dk dk',
+    salt <> salt' -> (0 < consumption (k_type k))%nat ->
+    derive_key hmac edpub k id salt = Some dk ->
+    derive_key hmac edpub k id' salt' = Some dk' ->
+    r_material dk = r_material dk' ->
+    let prk := Derive.hkdf_extract hmac (k_hash k) (k_salt k) (k_ikm k) in
+    let n := Nat.min (consumption (k_type k)) (hash_len (k_hash k)) in
+    (0 < n <= hash_len (k_hash k))%nat /\
+    salt ++ [1] <> salt' ++ [1] /\
+    length (firstn n (hmac (k_hash k) prk (salt ++ [1]))) = n /\
+    firstn n (hmac (k_hash k) prk (salt ++ [1])) = firstn n (hmac (k_hash k) prk (salt' ++ [1])).
+Proof. exact salt_separation_reduction. Qed.
+Print Assumptions C17_salt_separation_reduction.
+
+(* PRF-KEY SEPARATION as a reduction: two deriver keys (same hash, same derived type) whose PRF
+   keys differ in the key bytes or in the EFFECTIVE salt (empty = HashLen zeros) and that derive
+   the same material of positive length for one caller salt exhibit either a full-length HMAC
+   collision in Extract on different (key, message) pairs, or a collision of HMAC truncated to
+   n > 0 bytes on salt || 0x01 under two different keys PRK <> PRK'. *)
+Theorem C17_prf_key_separation_reduction :
+  forall hmac edpub, (forall h k m, length (hmac h k m) = hash_len h) ->
+  forall k k' id id' salt dk dk',
+    k_hash k = k_hash k' -> k_type k = k_type k' ->
+    (eff_salt (k_hash k) (k_salt k), k_ikm k) <> (eff_salt (k_hash k') (k_salt k'), k_ikm k') ->
+    (0 < consumption (k_type k))%nat ->
+    derive_key hmac edpub k id salt = Some dk ->
+    derive_key hmac edpub k' id' salt = Some dk' ->
+    r_material dk = r_material dk' ->
+    let h := k_hash k in
+    let prk := Derive.hkdf_extract hmac h (k_salt k) (k_ikm k) in
+    let prk' := Derive.hkdf_extract hmac h (k_salt k') (k_ikm k') in
+    let n := Nat.min (consumption (k_type k)) (hash_len h) in
+    (0 < n <= hash_len h)%nat /\
+    ((length (hmac h (eff_salt h (k_salt k)) (k_ikm k)) = hash_len h /\
+      hmac h (eff_salt h (k_salt k)) (k_ikm k) = hmac h (eff_salt h (k_salt k')) (k_ikm k'))
+     \/
+     (prk <> prk' /\
+      length (firstn n (hmac h prk (salt ++ [1]))) = n /\
+      firstn n (hmac h prk (salt ++ [1])) = firstn n (hmac h prk' (salt ++ [1])))).
+Proof. exact prf_key_separation_reduction. Qed.
+Print Assumptions C17_prf_key_separation_reduction.
+
+(* The LITERAL clause "different PRF keys give different keys" is false of the model (and of the
+   code: confirmed by the correspondence run, cases Z of the generator): (1) for every HMAC, a PRF
+   key without salt and the same key bytes with HashLen zero bytes as salt derive the same keys;
+   (2) with RFC 2104 HMAC, a salt and the same salt followed by a zero byte (up to the block size)
+   derive the same keys.  Both are identities of HKDF / HMAC (RFC 5869 2.2, RFC 2104 key padding),
+   not collisions; the reduction above therefore compares EFFECTIVE salts. *)
+Theorem C17_prf_key_separation_refuted_nil_salt :
+  forall hmac edpub h ikm t v id salt,
+    let k := mkDKey h ikm [] t v in
+    let k' := mkDKey h ikm (zeros (hash_len h)) t v in
+    k <> k' /\ derive_key hmac edpub k id salt = derive_key hmac edpub k' id salt.
+Proof. exact prf_key_separation_refuted_nil_salt. Qed.
+Print Assumptions C17_prf_key_separation_refuted_nil_salt.
+
+Theorem C17_prf_key_separation_refuted_zero_padded_salt :
+  forall (Hash : hash_alg -> bytes -> bytes) edpub h ikm s t v id salt,
+    (0 < length s)%nat -> (length s < block_size (alg_of h))%nat ->
+    let k := mkDKey h ikm s t v in
+    let k' := mkDKey h ikm (s ++ [0]) t v in
+    k <> k' /\ derive_key (std_hmac Hash) edpub k id salt = derive_key (std_hmac Hash) edpub k' id salt.
+Proof. exact prf_key_separation_refuted_zero_padded_salt. Qed.
+Print Assumptions C17_prf_key_separation_refuted_zero_padded_salt.
 
 Theorem C17_deterministic :
   forall hmac edpub ks salt r1 r2,
@@ -88,6 +190,27 @@ Theorem C17_derived_keyset_wellformed :
     derive_keyset hmac edpub ks salt = DOk h keys -> wf_handle h.
 Proof. exact derive_keyset_wellformed. Qed.
 Print Assumptions C17_derived_keyset_wellformed.
+
+(* ... and derived keys are usable as ordinary keys: the handle is well-formed (C11 invariant), every
+   entry is ENABLED and carries exactly its key's own id requirement, a required id is the entry's
+   id, the key has the RAW variant iff it has no requirement, its material has the length its type
+   consumes, and an Ed25519 key carries the public key of its seed. *)
+Theorem C17_derived_keys_usable :
+  forall hmac edpub, (forall h k m, length (hmac h k m) = hash_len h) ->
+  forall ks salt hd keys,
+    wf_deriver ks ->
+    derive_keyset hmac edpub ks salt = DOk hd keys ->
+    wf_handle hd /\
+    Forall2 (fun x dk =>
+               est x = Enabled /\ ereq x = r_req dk /\
+               (forall r, r_req dk = Some r -> r = eid x) /\
+               (r_req dk = None <-> r_variant dk = VRaw) /\
+               length (r_material dk) = consumption (r_type dk) /\
+               r_public dk = (match r_type dk with DEd25519 => edpub (r_material dk) | _ => [] end))
+            hd keys /\
+    map ekey hd = map N.of_nat (seq 0 (length keys)).
+Proof. exact derived_keys_usable. Qed.
+Print Assumptions C17_derived_keys_usable.
 
 (* 5. Totality: on every valid deriver keyset whose ENABLED keys use a
    supported PRF, derivation succeeds for every salt. *)
@@ -131,3 +254,31 @@ Proof.
       intros e [<-|[<-|[<-|[]]]]; simpl; intros; try discriminate; reflexivity.
   - eexists; eexists. vm_compute. reflexivity.
 Qed.
+
+(* Non-vacuity of the reductions: with a (bad) constant HMAC two different salts, and two different
+   PRF keys, do derive the same 16-byte key; the exhibited collision is real (16 equal bytes on
+   different inputs).  std_hmac satisfies the length law for any hash of the right output size. *)
+Example C17_reduction_hypotheses_met :
+  let hmac := fun (h : hash) (_ _ : bytes) => zeros (hash_len h) in
+  let edpub := fun b : bytes => b in
+  let k := mkDKey SHA256 (repeat 7 32) [] (DAesGcm 16) VTink in
+  let k' := mkDKey SHA256 (repeat 8 32) [] (DAesGcm 16) VTink in
+  (forall h a b, length (hmac h a b) = hash_len h) /\
+  (exists dk dk', [1] <> [2] /\ derive_key hmac edpub k 5 [1] = Some dk /\
+                  derive_key hmac edpub k 5 [2] = Some dk' /\ r_material dk = r_material dk' /\
+                  length (r_material dk) = 16%nat) /\
+  (exists dk dk', (eff_salt SHA256 (k_salt k), k_ikm k) <> (eff_salt SHA256 (k_salt k'), k_ikm k') /\
+                  derive_key hmac edpub k 5 [1] = Some dk /\
+                  derive_key hmac edpub k' 5 [1] = Some dk' /\ r_material dk = r_material dk').
+Proof.
+  cbv zeta. split; [intros h a b; apply zeros_length|]. split.
+  - do 2 eexists. split; [discriminate|]. split; [vm_compute; reflexivity|].
+    split; [vm_compute; reflexivity|]. split; reflexivity.
+  - do 2 eexists. split; [intros E; inversion E|]. split; [vm_compute; reflexivity|].
+    split; [vm_compute; reflexivity|]. reflexivity.
+Qed.
+
+Example C17_std_hmac_length_law :
+  forall (Hash : hash_alg -> bytes -> bytes), (forall a x, length (Hash a x) = digest_size a) ->
+  forall h k m, length (std_hmac Hash h k m) = hash_len h.
+Proof. exact std_hmac_len. Qed.
